@@ -50,6 +50,9 @@ type ModStream struct {
 	sendErr  error // when set, Send fails
 	failSend int   // fail the n-th Send from now (1 = next); 0 = never
 	nSent    int
+	// SendDelay makes every Send of the server take this long (a stream whose writes are
+	// slower than the server produces results: flow control, a slow reader). Set before use.
+	SendDelay time.Duration
 
 	done   chan struct{}
 	result error // what Modify returned
@@ -108,6 +111,9 @@ func (m *ModStream) AwaitEnd() (error, bool) {
 
 // Send implements the server side's Send.
 func (m *ModStream) Send(r *spb.ModifyResponse) error {
+	if m.SendDelay > 0 {
+		time.Sleep(m.SendDelay)
+	}
 	m.mu.Lock()
 	defer m.mu.Unlock()
 	m.nSent++
